@@ -85,6 +85,7 @@ class Engine:
         self.exhausted = False
         self.errors = []
         self.outcomes = {}
+        self.deferred = []
         self.prefer = []          # optional constraints tried (in order) to get a small / replayable counterexample
 
     # -- solver
@@ -205,6 +206,13 @@ class Engine:
             raise Abort("assume infeasible")
         self.last_model = self.s.model()
 
+    def defer(self, cond):
+        """a defining constraint that is kept OUT of the exploration solver (e.g. nonlinear integer facts that would make every
+        branch query hard): path feasibility is over-approximated; the harness must add `deferred` to its final queries"""
+        if isinstance(cond, SymBool):
+            cond = cond.e
+        self.deferred.append(cond)
+
     def assume_fast(self, cond):
         """assume without a satisfiability check (checked lazily by later branches)"""
         if isinstance(cond, SymBool):
@@ -296,6 +304,7 @@ class Engine:
             self.trace = []
             self.s.push()
             self.pending = []
+            self.deferred = []
             self.last_model = None
             del GUARDS[:]
             try:
@@ -429,6 +438,8 @@ def bexpr(b):
 
 
 def _num_ok(o):
+    if hasattr(o, "_sq_cmp"):       # algebraic square-root values do their own (reflected) arithmetic and comparisons
+        return False
     return isinstance(o, (SymInt, SymBool, SymReal, NpInt, builtins.int, float, Fraction)) or (
         hasattr(o, "__index__") and not isinstance(o, SymArray)) or (
         hasattr(o, "dtype") and getattr(o, "shape", None) == ())
@@ -775,6 +786,8 @@ def s_int(v=0, *a):
         return v
     if isinstance(v, SymBool):
         return v._i()
+    if hasattr(v, "_sym_trunc"):
+        return v._sym_trunc()
     if isinstance(v, SymReal):
         # truncation toward zero of a real: fresh integer q with the defining inequalities
         global _INTREAL
@@ -814,6 +827,8 @@ def s_float(v=0.0):
         return SymReal(z3.ToReal(lift(v)))
     if isinstance(v, SymReal):
         return v
+    if isinstance(v, builtins.str) and v.strip() in REG_ATOMS:      # text of a symbolic number
+        return s_float(REG_ATOMS[v.strip()].value)
     return builtins.float(v)
 
 
@@ -931,9 +946,9 @@ class AtomStr(str):
     """Text of a symbolic integer: an opaque marker that ordinary string code can move around."""
     _n = 0
 
-    def __new__(cls, value):
+    def __new__(cls, value, suffix=""):
         AtomStr._n += 1
-        s = super().__new__(cls, f"⟦{AtomStr._n}⟧")
+        s = super().__new__(cls, f"⟦{AtomStr._n}⟧{suffix}")     # suffix "." marks the text of a decimal number
         s.value = value
         REG_ATOMS[str.__str__(s)] = s
         return s
